@@ -59,6 +59,10 @@ package scorch
 //@ spec carried(nsd []*roaring.Bitmap, ss *SegmentSnapshot, h *mergedSegmentHistory) bool = all(x, uint32, implies(bin(ss.deleted, x) && !bin(h.oldSegment.deleted, x), bhas(nsd[h.batchID], uint32(h.oldNewDocIDs[x]))))
 //@ spec freshBitmaps(nsd []*roaring.Bitmap, n int) bool = forall(k, 0, n, nsd[k] != nil && fresh(nsd[k]))
 
+// stable during the loops: the old root is still the root, the new snapshot is a different, fresh
+// object, the root lock is not held
+//@ spec mergeStable(s *Scorch, root *IndexSnapshot, nextMerge *segmentMerge, newSnapshot *IndexSnapshot) bool = s.root == root && root != newSnapshot && newSnapshot != nil && fresh(newSnapshot) && !held(s.rootLock) && rheld(s.rootLock) == 0
+
 //@ func Scorch.introduceMerge
 //@   props C05
 //@   mode int
@@ -75,8 +79,6 @@ package scorch
 // the carry-over, stated where the merged segments are about to be added to the new snapshot
 //@   at call newSnapshot.AddRef#0: assert forall(k, 0, len(root.segment), implies(old(in(nextMerge.mergedSegHistory, root.segment[k].id)), carried(newSegmentsDeleted, root.segment[k], old(nextMerge.mergedSegHistory[root.segment[k].id]))))
 // ---- loop invariants ----
-// stable: the old root, the merge request and every bitmap that existed before are not modified
-//@ spec mergeStable(s *Scorch, root *IndexSnapshot, nextMerge *segmentMerge, newSnapshot *IndexSnapshot) bool = s.root == root && root != newSnapshot && newSnapshot != nil && fresh(newSnapshot) && !held(s.rootLock) && rheld(s.rootLock) == 0
 //@   loop 0: invariant mergeStable(s, root, nextMerge, newSnapshot) && root == old(s.root) && s.nextSnapshotEpoch == old(s.nextSnapshotEpoch) && root.segment == old(s.root.segment) && nextMerge.newSegments == old(nextMerge.newSegments) && nextMerge.newSegmentIDs == old(nextMerge.newSegmentIDs) && nextMerge.mergedSegHistory == old(nextMerge.mergedSegHistory)
 //@   loop 0: invariant fresh(newSegmentsDeleted) && len(newSegmentsDeleted) == len(nextMerge.newSegments) && freshBitmaps(newSegmentsDeleted, iter) && len(newSnapshot.segment) == 0 && len(newSnapshot.offsets) == 0 && cap(newSnapshot.segment) == 0 && cap(newSnapshot.offsets) == 0
 //@   loop 0: invariant all(b, *roaring.Bitmap, implies(!fresh(b), b.mem == old(b.mem)))
@@ -89,3 +91,20 @@ package scorch
 // the history map only loses the entries of the root segments visited so far
 //@   loop 1: invariant all(id, uint64, implies(in(nextMerge.mergedSegHistory, id), old(in(nextMerge.mergedSegHistory, id)) && nextMerge.mergedSegHistory[id] == old(nextMerge.mergedSegHistory[id]))) && forall(k, iter, len(root.segment), iff(in(nextMerge.mergedSegHistory, root.segment[k].id), old(in(nextMerge.mergedSegHistory, root.segment[k].id))))
 //@   loop 1: invariant forall(k, 0, iter, implies(old(in(nextMerge.mergedSegHistory, root.segment[k].id)), carried(newSegmentsDeleted, root.segment[k], old(nextMerge.mergedSegHistory[root.segment[k].id]))))
+// inner loop: the documents deleted since the merge started, enumerated so far, are carried over
+//@   loop 2: invariant all(b, *roaring.Bitmap, implies(!fresh(b), b.mem == old(b.mem))) && freshBitmaps(newSegmentsDeleted, len(newSegmentsDeleted))
+//@   loop 2: invariant forall(k, 0, i, implies(old(in(nextMerge.mergedSegHistory, root.segment[k].id)), carried(newSegmentsDeleted, root.segment[k], old(nextMerge.mergedSegHistory[root.segment[k].id]))))
+//@   loop 2: invariant deletedSinceItr != nil && 0 <= deletedSinceItr.pos && deletedSinceItr.pos <= itLen(deletedSinceItr) && forall(k, 0, deletedSinceItr.pos, bhas(newSegmentsDeleted[history.batchID], uint32(history.oldNewDocIDs[itElem(deletedSinceItr, k)])))
+//@   loop 2: decreases itLen(deletedSinceItr) - deletedSinceItr.pos
+// source segments that are no longer in the root are obsoleted as a whole
+//@   loop 3: invariant mergeStable(s, root, nextMerge, newSnapshot) && all(b, *roaring.Bitmap, implies(!fresh(b), b.mem == old(b.mem))) && fresh(newSegmentsDeleted) && len(newSegmentsDeleted) == len(nextMerge.newSegments) && freshBitmaps(newSegmentsDeleted, len(newSegmentsDeleted))
+//@   loop 3: invariant forall(k, 0, len(root.segment), implies(old(in(nextMerge.mergedSegHistory, root.segment[k].id)), carried(newSegmentsDeleted, root.segment[k], old(nextMerge.mergedSegHistory[root.segment[k].id]))))
+//@   loop 4: invariant all(b, *roaring.Bitmap, implies(!fresh(b), b.mem == old(b.mem))) && freshBitmaps(newSegmentsDeleted, len(newSegmentsDeleted)) && obsoletedIter != nil && 0 <= obsoletedIter.pos && obsoletedIter.pos <= itLen(obsoletedIter)
+//@   loop 4: invariant forall(k, 0, len(root.segment), implies(old(in(nextMerge.mergedSegHistory, root.segment[k].id)), carried(newSegmentsDeleted, root.segment[k], old(nextMerge.mergedSegHistory[root.segment[k].id]))))
+//@   loop 4: decreases itLen(obsoletedIter) - obsoletedIter.pos
+// the merged segments that still have live documents are appended
+//@   loop 5: invariant mergeStable(s, root, nextMerge, newSnapshot) && root == old(s.root) && s.nextSnapshotEpoch == old(s.nextSnapshotEpoch) && fresh(skipped) && len(skipped) == len(nextMerge.newSegments) && len(newSegmentsDeleted) == len(nextMerge.newSegments) && freshBitmaps(newSegmentsDeleted, len(newSegmentsDeleted)) && len(nextMerge.newSegmentIDs) == len(nextMerge.newSegments)
+//@   loop 5: invariant len(newSnapshot.offsets) == len(newSnapshot.segment) && len(newSnapshot.segment) <= len(root.segment) + iter && len(root.segment) <= 1048576 && (cap(newSnapshot.segment) == 0 || fresh(newSnapshot.segment)) && (cap(newSnapshot.offsets) == 0 || fresh(newSnapshot.offsets))
+//@   loop 5: invariant runningOffsets(newSnapshot.segment, newSnapshot.offsets, len(newSnapshot.segment)) && forall(k, 0, len(newSnapshot.segment), newSnapshot.segment[k] != nil && newSnapshot.segment[k].segment != nil)
+//@   loop 5: invariant implies(len(newSnapshot.segment) == 0, running == 0) && implies(len(newSnapshot.segment) > 0, running == newSnapshot.offsets[len(newSnapshot.segment)-1] + segDocs(newSnapshot.segment[len(newSnapshot.segment)-1].segment)) && running <= 4294967296 * (len(root.segment) + iter) && docsToPersistCount <= 4294967296 * (len(root.segment) + iter) && memSegments <= len(root.segment) + iter && fileSegments <= len(root.segment) + iter
+//@   loop 6: invariant s != nil && !held(s.rootLock) && rheld(s.rootLock) == 0 && s.root == newSnapshot
